@@ -210,3 +210,205 @@ impl Scenario for C02Cell {
         vec!["thread scheduler (dsim)", "recorder doubles"]
     }
 }
+
+// ---------------------------------------------------------------------------------------------
+// Facade-level scenario: the real process-wide cell through `set_global_recorder` and the emission
+// macros (`with_recorder` on every emission), racing installers and emitters. The cell is put back
+// to "uninstalled" between runs through the guarded hook `__verif_reset_global_recorder`.
+
+#[derive(Clone, Debug, Serialize, Deserialize)]
+pub struct GPlan {
+    pub installers: u32,
+    /// per emitter thread: number of emissions
+    pub emitters: Vec<u32>,
+    /// installers start after this many scheduling points of idling (lets emitters go first)
+    pub installer_delay: u32,
+}
+
+pub struct C02Global;
+
+impl Scenario for C02Global {
+    type Plan = GPlan;
+    fn property(&self) -> &'static str {
+        "C02"
+    }
+    fn name(&self) -> &'static str {
+        "global"
+    }
+    fn plan(&self, r: &mut Rng, _tier: Tier) -> GPlan {
+        let n = r.range(1, 3) as usize;
+        GPlan { installers: r.range(1, 3) as u32, emitters: (0..n).map(|_| r.range(1, 5) as u32).collect(), installer_delay: r.below(4) as u32 }
+    }
+    fn horizon(&self) -> u64 {
+        60
+    }
+    fn execute(&self, plan: &GPlan, sched: &SchedSpec) -> RunReport {
+        metrics::__verif_reset_global_recorder();
+        let obs = Arc::new(Mutex::new(Obs::default()));
+        let log = new_log();
+        let shareds: Vec<Arc<Shared>> = (0..plan.installers).map(|_| Shared::new(log.clone())).collect();
+        let (p, obs2, shareds2, log2) = (plan.clone(), obs.clone(), shareds.clone(), log.clone());
+        let sim = simulate(sched, 40_000, move || {
+            let mut hs = Vec::new();
+            for i in 0..p.installers {
+                let obs = obs2.clone();
+                let sh = shareds2[i as usize].clone();
+                let delay = p.installer_delay;
+                hs.push(dsim::spawn(&format!("installer{}", i), move || {
+                    for _ in 0..delay {
+                        dsim::point("c02g.idle");
+                    }
+                    let rec = LogRecorder::new(i, sh.clone());
+                    let inv = dsim::step();
+                    let res = metrics::set_global_recorder(rec);
+                    let ret = dsim::step();
+                    dsim::point("c02g.set.end");
+                    let mut o = obs.lock().unwrap();
+                    match res {
+                        Ok(()) => o.sets.push((i, inv, ret, true)),
+                        Err(e) => {
+                            o.sets.push((i, inv, ret, false));
+                            let r = e.into_inner();
+                            if r.id != i || !r.intact() {
+                                o.errors.push(("loser-got-wrong-recorder".into(), format!("installer {} got back recorder id {} intact={}", i, r.id, r.intact())));
+                            }
+                            if sh.drops.load(Ordering::SeqCst) != 0 {
+                                o.errors.push(("loser-recorder-dropped-by-library".into(), format!("installer {}: drop count {} before the caller dropped it", i, sh.drops.load(Ordering::SeqCst))));
+                            }
+                            drop(o);
+                            drop(r);
+                        }
+                    }
+                }));
+            }
+            for (e, n) in p.emitters.iter().enumerate() {
+                let obs = obs2.clone();
+                let log = log2.clone();
+                let n = *n;
+                hs.push(dsim::spawn(&format!("emitter{}", e), move || {
+                    for k in 0..n {
+                        dsim::point("c02g.emit.begin");
+                        let me = dsim::tid();
+                        let before = log.lock().unwrap().len();
+                        let inv = dsim::step();
+                        match k % 3 {
+                            0 => metrics::counter!("c02_global", "k" => "v").increment(1),
+                            1 => metrics::describe_gauge!("c02_global_g", "d"),
+                            _ => metrics::histogram!("c02_global_h").record(1.0),
+                        }
+                        let ret = dsim::step();
+                        let l = log.lock().unwrap();
+                        let mine: Vec<&crate::doubles::Ev> = l[before..].iter().filter(|e| e.tid == me && (e.op.starts_with("register") || e.op.starts_with("describe"))).collect();
+                        let id = match mine.len() {
+                            0 => None,
+                            1 if mine[0].value == "CORRUPT" => Some(u32::MAX - 1),
+                            1 => Some(mine[0].rec),
+                            _ => Some(u32::MAX),
+                        };
+                        drop(l);
+                        obs.lock().unwrap().loads.push((me, inv, ret, id));
+                    }
+                }));
+            }
+            for h in hs {
+                h.join();
+            }
+            // quiescent emission
+            let before = log2.lock().unwrap().len();
+            let inv = dsim::step();
+            metrics::counter!("c02_global_final").increment(1);
+            let id = log2.lock().unwrap().get(before).map(|e| e.rec);
+            obs2.lock().unwrap().loads.push((0, inv, u64::MAX, id));
+        });
+        metrics::__verif_reset_global_recorder();
+        let mut rep = RunReport::ok(sim);
+        let o = obs.lock().unwrap();
+        let mut v: Option<Violation> = None;
+        let sim = rep.sim.as_ref().unwrap();
+        if !sim.panics.is_empty() {
+            v = violation("panic", format!("{:?}", sim.panics));
+        }
+        if sim.end == dsim::End::Completed && v.is_none() {
+            if let Some((c, d)) = o.errors.first() {
+                v = violation(c, d.clone());
+            }
+            let winners: Vec<&(u32, u64, u64, bool)> = o.sets.iter().filter(|s| s.3).collect();
+            if v.is_none() && winners.len() > 1 {
+                v = violation("two-winners", format!("installers {:?} all got Ok from set_global_recorder", winners.iter().map(|w| w.0).collect::<Vec<_>>()));
+            }
+            if v.is_none() && winners.is_empty() {
+                v = violation("no-winner", "every set_global_recorder failed although no recorder was installed".into());
+            }
+            if v.is_none() {
+                let w = winners[0];
+                if shareds[w.0 as usize].drops.load(Ordering::SeqCst) != 0 {
+                    v = violation("winner-dropped", format!("installed recorder {} was dropped", w.0));
+                }
+                for l in &o.loads {
+                    if v.is_some() {
+                        break;
+                    }
+                    match l.3 {
+                        Some(id) if id != w.0 => {
+                            v = violation("emission-wrong-recorder", format!("emission by t{} (steps {}..{}) reached recorder {:?} (4294967295 = several, 4294967294 = corrupt), the installed one is {}", l.0, l.1, l.2, id, w.0));
+                        }
+                        Some(_) if l.2 < w.1 => {
+                            v = violation("emission-before-install", format!("emission returned at step {} before the winning install was invoked at {}, yet reached a recorder", l.2, w.1));
+                        }
+                        None if l.1 > w.2 => {
+                            v = violation("emission-lost-after-install", format!("emission by t{} invoked at step {} after the winning install returned at {} reached no recorder", l.0, l.1, w.2));
+                        }
+                        _ => {}
+                    }
+                }
+                // once any emission has been dispatched to the recorder, every later one is too
+                for a in &o.loads {
+                    for b in &o.loads {
+                        if v.is_none() && a.3.is_some() && a.2 < b.1 && b.3.is_none() {
+                            v = violation("emission-lost-after-install", format!("emission at {}..{} reached the recorder, the later emission by t{} at {}..{} reached none", a.1, a.2, b.0, b.1, b.2));
+                        }
+                    }
+                }
+                for s in o.sets.iter().filter(|s| !s.3) {
+                    if v.is_none() && shareds[s.0 as usize].drops.load(Ordering::SeqCst) != 1 {
+                        v = violation("loser-recorder-drop-count", format!("installer {} final drop count {}", s.0, shareds[s.0 as usize].drops.load(Ordering::SeqCst)));
+                    }
+                }
+            }
+        }
+        rep.observations = format!("sets={:?} emissions={:?}", o.sets, o.loads);
+        rep.history_hash = crate::util::hash_str(&rep.observations);
+        rep.count("installs", o.sets.len() as u64);
+        rep.count("emissions", o.loads.len() as u64);
+        rep.count("emissions_dispatched", o.loads.iter().filter(|l| l.3.is_some()).count() as u64);
+        rep.count("emissions_noop", o.loads.iter().filter(|l| l.3.is_none()).count() as u64);
+        rep.violation = v;
+        rep
+    }
+    fn shrink(&self, p: &GPlan) -> Vec<GPlan> {
+        let mut v = vec![];
+        if p.installers > 1 {
+            v.push(GPlan { installers: p.installers - 1, ..p.clone() });
+        }
+        for i in 0..p.emitters.len() {
+            let mut q = p.clone();
+            if q.emitters[i] > 1 {
+                q.emitters[i] -= 1;
+                v.push(q);
+            } else if q.emitters.len() > 1 {
+                q.emitters.remove(i);
+                v.push(q);
+            }
+        }
+        if p.installer_delay > 0 {
+            v.push(GPlan { installer_delay: p.installer_delay - 1, ..p.clone() });
+        }
+        v
+    }
+    fn real_components(&self) -> Vec<&'static str> {
+        vec!["metrics::set_global_recorder", "metrics::with_recorder via counter!/histogram!/describe_gauge!", "the process-wide GLOBAL_RECORDER cell"]
+    }
+    fn stub_components(&self) -> Vec<&'static str> {
+        vec!["thread scheduler (dsim)", "recorder doubles", "guarded hook __verif_reset_global_recorder puts the cell back to uninstalled between runs (one run = one process life)"]
+    }
+}
